@@ -159,7 +159,7 @@ AT(tok) ==
     [] tok = "300K"    -> A("lit", "", 3, 1, 2, 0, "K", FALSE, FALSE)
     [] tok = "w"    -> A("fnode", "w", 3, 1, 1, 0, "deg", FALSE, FALSE)
     [] tok = "n"    -> A("inode", "n", 15, 1, 2, 0, "m", FALSE, FALSE)
-    [] tok = "l"    -> A("inode", "l", 1, 1, 0, 0, "km", FALSE, FALSE)
+    [] tok = "l"    -> A("inode", "l", 2, 1, 0, 0, "km", FALSE, FALSE)   \* 1500 m rounds to it, but is not it
     [] tok = "90deg"   -> A("lit", "", 9, 1, 1, 0, "deg", FALSE, FALSE)
     [] tok = "45deg"   -> A("lit", "", 45, 1, 0, 0, "deg", FALSE, FALSE)
     [] tok = "500mrad" -> A("lit", "", 5, 1, 2, 0, "mrad", FALSE, FALSE)
